@@ -176,7 +176,22 @@ def handleParse (args : List String) : String :=
       | _ => "bad-cmd"
   | _ => "bad-op"
 
+/-- `wf <depth> CMD …` → do the hypotheses of `tryGetMatchesFrom_total` hold for the built tree? -/
+def handleWf (args : List String) : String :=
+  match args with
+  | d :: rest =>
+    match d.toNat? with
+    | none => "bad-op"
+    | some depth =>
+      match (decCmd (depth + 3)).run rest with
+      | some (cmd, _) =>
+        let b := Build.buildAll (depth + 2) cmd
+        s!"WF tree={if b.wfTreeB (depth + 3) then 1 else 0} height={if b.height ≤ depth + 3 then 1 else 0}"
+      | none => "bad-cmd"
+  | _ => "bad-op"
+
 def handleL3 (cmd : String) (args : List String) : Option String :=
-  if cmd == "parse" then some (handleParse args) else none
+  if cmd == "parse" then some (handleParse args)
+  else if cmd == "wf" then some (handleWf args) else none
 
 end Clap.Driver
